@@ -15,7 +15,15 @@ one() { # property defect subject-pattern
   (cd "$RP" && tar --exclude=.git -cf - .) | (cd "$SCR" && tar -xf -)
   git -C "$RP" diff "$sha^" "$sha" | (cd "$SCR" && patch -s -R -p1)
   { echo "## library tree: $RP at $(git -C "$RP" log --format=%h -1) with commit $sha ($(git -C "$RP" log --format=%s -1 $sha)) reverted"; 
-    VERIF_REPO="$SCR" bin/check "$prop" --tier quick; echo "exit=$?"; } > "notes/redgreen/${prop}_${name}_before.txt" 2>&1
+    VERIF_REPO="$SCR" bin/check "$prop" --tier quick; echo "exit=$?";
+    echo "## the failing cases named on the VIOLATION lines above (smallest per signature):";
+    python3 - "$prop" <<'PY'
+import glob, json, sys
+for f in sorted(glob.glob("replays/%s/encrypt-*.json" % sys.argv[1])):
+    r = json.load(open(f))
+    print("%s: %s\n   case: %s" % (r.get("signature"), r.get("what"), json.dumps(r.get("case"))))
+PY
+  } > "notes/redgreen/${prop}_${name}_before.txt" 2>&1
   { echo "## library tree: $RP at $(git -C "$RP" log --format=%h -1) (repaired)";
     VERIF_REPO="$RP" bin/check "$prop" --tier quick; echo "exit=$?"; } > "notes/redgreen/${prop}_${name}_after.txt" 2>&1
   tail -3 "notes/redgreen/${prop}_${name}_before.txt" | head -2; tail -2 "notes/redgreen/${prop}_${name}_after.txt"
@@ -25,4 +33,5 @@ one C09 F8b "payload which is a map"
 one C09 F8c "Taggable map none of whose tags"
 one C10 F11 "withIgnoreTaggable"
 one C09 F11 "withIgnoreTaggable"
+one C09 F12 "skip nil pointers in slices"
 rm -rf "$SCR"
